@@ -406,7 +406,7 @@ pub mod asyncx {
     /// Runs a sequence of calls on the async dispatcher while the controller holds the
     /// background systems inside run.  ops: dispatch | running | wait | wait_without_tl |
     /// world | world_mut | setup
-    pub fn run_session(s: &mut ASession, ops: &[String], seed: u64, quiet_us: u64, hold_ms: u64, panics: &[usize]) -> ExecStats {
+    pub fn run_session(s: &mut ASession, ops: &[String], seed: u64, quiet_us: u64, hold_ms: u64, panics: &[usize], setup_log: bool) -> ExecStats {
         let ctx = s.rec.ctx.clone();
         ctx.claim_caller();
         ctx.log_exec.store(true, Ordering::Relaxed);
@@ -425,6 +425,7 @@ pub mod asyncx {
             ctx.ev(json!({"ev":"world0","rid":rid,"val":val}));
         }
         ctx.ev(json!({"ev":"abegin","d":s.top}));
+        ctx.setup_log.store(setup_log, Ordering::Relaxed);
         {
             let mut g = ctx.gate.lock().unwrap();
             *g = Gate::default();
@@ -475,7 +476,7 @@ pub mod asyncx {
                 x if ["dispatch", "running", "wait", "wait_without_tl", "world", "world_mut"].contains(&x) => x,
                 _ => "setup",
             };
-            ctx.ev(json!({"ev":"acall","op":opname,
+            ctx.ev(json!({"ev":"acall","setuplog":setup_log,"op":opname,
                           "phase":"end","out": if out {"ok"} else {"panic"},"ret":ret}));
             if op == "dispatch" {
                 // after a dispatch everything is held until the next blocking call
